@@ -69,7 +69,7 @@ class _Sink:
 
 def drive(sc):
     sc = sc["cfg"] if "cfg" in sc else sc
-    sc = {"redir": False, **{k: v for k, v in sc.items() if k != "attached"}}
+    sc = {"redir": False, "tolnone": False, **{k: v for k, v in sc.items() if k != "attached"}}
     with tempfile.TemporaryDirectory(prefix="rvbasic") as outdir:
         sink = _Sink(outdir)
         with sink:
@@ -77,7 +77,7 @@ def drive(sc):
         for i, e in enumerate(log):
             e["dest"] = sink.dest(i)
     trace = [dict(sc)] + log
-    key = [sc["script"], sc["abortAt"], sc["maxfun"], sc["runs"], sc["nA"], sc["nR"], sc["lateR"], sc["redir"]]
+    key = [sc["script"], sc["abortAt"], sc["maxfun"], sc["runs"], sc["nA"], sc["nR"], sc["lateR"], sc["redir"], sc["tolnone"]]
     return trace, {"nontrivial": len(sc["script"]) > 0, "key": key, "runs": sc["runs"], "events": len(log)}
 
 
@@ -111,7 +111,8 @@ def _run(sc, sink, outdir):
         return res_cb
 
     from ..ropt_util import plugin_manager  # noqa: F401  (registers nothing; the script plugin is found by entry name below)
-    opt = BasicOptimizer(_config(sc, outdir), evaluator)
+    opt = (BasicOptimizer(_config(sc, outdir), evaluator, constraint_tolerance=None) if sc["tolnone"]
+           else BasicOptimizer(_config(sc, outdir), evaluator))
     opt._optimizer_context.plugin_manager.add_plugin("optimizer", "rvscript", ScriptPlugin())  # noqa: SLF001
     for _ in range(sc["nA"]):
         opt.set_abort_callback(abort_cb)
